@@ -614,6 +614,45 @@ _AMEND.setdefault("C19", []).append(
      "In the cross-checked decision tables a call inside try/finally may "
      "raise through the finally clause (so clean-up moved out of the finally "
      "is a difference).  A callee that takes ownership"))
+# session 4
+_AMEND["C01"].append(
+    ("text", "and that every call through a datatype slot in matcher.py/"
+     "info.py is wrapped into DataConversionError.",
+     "that every call through a datatype slot in matcher.py/info.py is "
+     "wrapped into DataConversionError; and, for 'the schema' of the "
+     "statement, that a schema loader returns the schema parsed from the "
+     "resource given (cache hits only under that resource's non-empty URL) "
+     "and that the default key type accepts exactly the documented basic-key "
+     "language."))
+_AMEND["C07"].append(
+    ("text", "Does not decide arbitrary implicit Python errors.",
+     "Two implicit TypeError sources are attributed as raise sites of the "
+     "escape analysis: str.join over a sequence whose inferred element types "
+     "include None, and string concatenation with an operand that may be "
+     "None (flow-insensitive types; a site is dropped when the function "
+     "tests the operand for None-ness before it).  Does not decide other "
+     "implicit Python errors."))
+_AMEND.setdefault("C12", []).append(
+    ("text", "(one known finding: F8).",
+     "(one known finding: F8); that every load-phase lookup in the schema's "
+     "own tables (type table, component registry: the containers the schema "
+     "class creates and createDerivedSchema copies) goes through the "
+     "loader's current schema or the schema under construction, never "
+     "through a snapshot taken before a %import replaced the loader's schema "
+     "(one known finding: F22, the option bag), and that the option bag "
+     "looks a type up only for a section an override addresses."))
+_AMEND["C13"].append(
+    ("text", "type objects are constructed with their own empty containers.",
+     "type objects are constructed with their own empty containers; the "
+     "builder code that runs inside a load on the implementer table shared "
+     "with the application schema (F8) reads and writes it exactly as the "
+     "reference does."))
+_AMEND.setdefault("C14", []).append(
+    ("text", "extended loader iff overrides.",
+     "extended loader iff overrides; that the option bag makes no lookup in "
+     "the schema's type table through the schema snapshot it was built with "
+     "(one known finding: F22 -- an override addressing a section of a "
+     "%import-ed type is refused)."))
 for _pid, _items in _AMEND.items():
     for _field, _old, _new in _items:
         assert _old in CLAIMS[_pid][_field], (_pid, _old)
